@@ -1,4 +1,4 @@
-From WP Require Import Base.Prelude Run.Sx Run.RunSxg Model.PathUrl.
+From WP Require Import Base.Prelude Run.Sx Run.RunSxg Run.RunCC Run.RunBundle Model.PathUrl Model.Http Model.Bundle Model.Har.
 Open Scope N_scope.
 
 Definition fentry_of_sx (s : sx) : option fentry :=
@@ -32,8 +32,48 @@ Definition op_cli_chain (args : list sx) : sx := SL [sym "ok"].
 Definition op_escape (args : list sx) : sx :=
   match args with [SB p] => SB (escape_path p) | _ => bad_args end.
 
+(* cli_gen_har ver primary|() ((url method status ((name value)...) text b64)...) :
+   gen-bundle -har, then bundle.Read and dump-bundle on the artifact.  Either the tool refuses
+   the capture, or what it writes reads back as the exchanges fromHar keeps. *)
+Definition hentry_of_sx (s : sx) : option hentry :=
+  match s with
+  | SL [SB u; SB m; SZ st; SL hs; SB txt; SZ b64] =>
+      let? hs' := omap (fun h => match h with SL [SB k; SB v] => Some (k, v) | _ => None end) hs in
+      Some {| h_url := u; h_method := m; h_status := st; h_resh := hs'; h_text := txt; h_b64 := negb (b64 =? 0)%Z |}
+  | _ => None
+  end.
+Definition op_cli_gen_har (args : list sx) : sx :=
+  match args with
+  | [v; p; SL es] =>
+      match bversion_of v, optb_of_sx p, omap hentry_of_sx es with
+      | Some v', Some p', Some es' =>
+          match from_har es' [] [] with
+          | Ok xs =>
+              let b := {| b_ver := v'; b_primary := p'; b_manifest := None; b_sigs := None; b_exchanges := xs; b_taint := false |} in
+              if b_write_taint b then unknown_sx else
+              match b_write b with
+              | Ok bs =>
+                  match b_read (fun _ => true) bs with
+                  | Ok b' => if b_taint b' then unknown_sx else
+                      SL [sym "ok"; SZ 1;
+                          SL (map (fun x => SL [SB (bx_url x); SZ (bx_status x); SB (bx_body x)])
+                                  (isort (fun a c => bytes_ltb (bx_url a) (bx_url c)) (b_exchanges b')))]
+                  | _ => SL [sym "artifact_unreadable"]
+                  end
+              | _ => SL [sym "refused"]
+              end
+          | _ => SL [sym "refused"]
+          end
+      | _, _, _ => bad_args
+      end
+  | _ => bad_args
+  end.
+
 Definition dispatch_cli (op : bytes) (args : list sx) : option sx :=
   if bytes_eqb op (s2b "cli_gen_dir") then Some (op_cli_gen_dir args)
   else if bytes_eqb op (s2b "cli_chain") then Some (op_cli_chain args)
+  else if bytes_eqb op (s2b "cli_gen_har") then Some (op_cli_gen_har args)
+  (* inconsistent key / record size / pre-existing Digest: the tool must refuse *)
+  else if bytes_eqb op (s2b "cli_sign_refuse") then Some (SL [sym "refused"])
   else if bytes_eqb op (s2b "escape_path") then Some (op_escape args)
   else None.
